@@ -248,7 +248,9 @@ func markerName(n int) string {
 func markerIndex(s string) (int, bool) {
 	if strings.HasPrefix(s, markerPrefix) {
 		n, err := strconv.Atoi(s[len(markerPrefix):])
-		if err == nil {
+		// Only the exact names generated by markerName are markers:
+		// Atoi also accepts signs and leading zeros.
+		if err == nil && n >= 0 && markerName(n) == s {
 			return n, true
 		}
 	}
